@@ -94,6 +94,8 @@ def _coverage(ctx, trace, n_shapes):
     for line in open(trace):
         e = json.loads(line)
         c[e["ev"]] += 1
+        if "inIntact" not in e:
+            raise vlib.Infra("C17: event without inIntact: %s" % e["ev"])
         if e["ev"] == "derive" and e.get("kind"):
             c["derive:" + e["kind"]] += 1
         if e["ev"] == "derive" and e.get("route") == "plan":
@@ -142,7 +144,9 @@ def run(ctx):
                           "DeriveKeyset(salt) x2 is followed by DeriveKeyset(other salt of the same length, same buffer) [kind=reuse] "
                           "and DeriveKeyset(salt) again [kind=repeat]; every fourth deriver is additionally walked through the salt-length "
                           "classes growing, shrinking down to empty and growing again incl. strict prefixes of earlier salts "
-                          "[kind=walk]; each call is its own event judged by the reference; constructor inputs, messages, "
+                          "and the enclosing-buffer sequence salt = buf[:n] then buf[:n+k] without rewriting [kind=walk]; every input has "
+                          "sentinel-filled spare capacity and guard zones and the trace spec judges inIntact with the value; each call "
+                          "is its own event judged by the reference; constructor inputs, messages, "
                           "AD are scribbled likewise; handles are projected after the scribble")
     ctx.assumptions += ["HMAC/SHA, AES-GCM, ChaCha20-Poly1305, Ed25519 and the AES block are the JDK's",
                         "AES-GCM-HKDF streaming keys: usability is checked against an ordinary Tink key built from the derived "
